@@ -14,7 +14,9 @@ EXPLANATION = (
     'days_per_month by case split on the month, one difference-bound fact for "d > n then d -= n"); '
     'at every construction of a fields value the month is in [1,12], the day in [1,31], the hour in '
     '[0,23], minute and second in [0,59], every narrowing static_cast in the chain preserves its '
-    'value and the days_per_month table is subscripted in bounds. C04-align: each align(tag, f) '
+    'value and the days_per_month table is subscripted in bounds. C04-ovf: every arithmetic node of '
+    'the chain whose interval can leave 64 bits has a year operand (the documented exception), so no '
+    'non-year intermediate overflows. C04-align: each align(tag, f) '
     'keeps the fields at or above the tag and resets those below to their minimum. C04-funnel: in a '
     'witness unit that instantiates civil_time<T> for the six tags, every constructor other than the '
     'copy constructor reaches the designated civil_time(fields) constructor whose initialiser is '
@@ -54,6 +56,10 @@ class _Obs(Observer):
     def subscript(self, ai, e, ext, idx, st):
         cur = self.subs.get(id(e))
         self.subs[id(e)] = (e, ext, idx if cur is None else cur[2].join(idx))
+
+    def overflow(self, ai, e, val, it, st):
+        self.ovf = getattr(self, 'ovf', {})
+        self.ovf[id(e)] = (e, val, it)
 
 
 def run(ctx):
@@ -133,8 +139,22 @@ def run(ctx):
         ctx.check(idx.lo >= 0 and idx.hi < ext, 'C04-range', 'table subscript at %s in [0,%d)' % (pos(e), ext), e,
                   'a constant table is subscripted with %s, extent %d' % (idx, ext), construct='sub:%s' % _fn_of(e),
                   detail=str(idx))
+    # C04-ovf: arithmetic that can leave its type for some 64-bit arguments involves the year only
+    n_ovf = 0
+    for (e, val, it) in getattr(obs, 'ovf', {}).values():
+        n_ovf += 1
+        ops = kids(e)
+        year_op = any(qtype(c) == 'cctz::year_t' or (peel(c) is not None and peel(c).get('kind') == 'MemberExpr' and peel(c).get('name') == 'y')
+                      or any(qtype(y) == 'cctz::year_t' for y in walk(c) if y.get('kind') == 'DeclRefExpr') for c in ops)
+        ctx.check(year_op, 'C04-ovf', 'possibly overflowing %s at %s involves the year' % (e.get('opcode'), pos(e)), e,
+                  'this intermediate arithmetic can overflow 64 bits for arguments whose normalised year is representable '
+                  '(no operand is a year): the construction is not exact near the limits of the non-year fields',
+                  construct='ovf:%s:%s' % (_fn_of(e), e.get('opcode')), detail='operand types %s' % [qtype(c) for c in ops])
+    ctx.check(n_ovf >= 5, 'C04-ovf', 'year arithmetic is the only arithmetic that can overflow (%d nodes)' % n_ovf, None,
+              'expected the year computations to be reported as possibly overflowing', construct='ovf:count')
     ctx.stats['absint'] = dict(ai.stats)
     ctx.minimum('C04-range', 45)
+    ctx.minimum('C04-ovf', 6)
 
     # ---- C04-align
     aligns = G.find('cctz::detail::align')
